@@ -80,3 +80,5 @@ func (fr *Frame) paramCell(name string) *ssa.Alloc {
 	}
 	return nil
 }
+
+func fmtErrorf(format string, a ...interface{}) error { return fmt.Errorf(format, a...) }
